@@ -36,6 +36,10 @@ CHECKS = {
    text="Bounded exhaustive exploration on the implementation: (a) every call tree with <= B actions over {TSTORE, TLOAD, CALL/DELEGATECALL/STATICCALL into a child} with nesting <= 3 and terminators {STOP, REVERT, INVALID}, normal and static entry, with and without a second transaction after Prepare, executed under /repo's Cancun rules and compared event by event (stack, gas, errors) with go-ethereum v1.12.0 running EIP-1153 on Shanghai rules; (b) the full product of MCOPY (dst, src, len) over a 16-value boundary alphabet x memory pre-sizes x gas limits around the consumption, judged against an EIP-5656 model (memmove, expansion to cover both ranges, copy + expansion gas, out-of-range => out of gas); (c) bytes 0x5c/0x5d/0x5e invalid on all 12 forks before Cancun.",
    tech="stateless bounded-exhaustive enumeration of programs/operands executed on the real code vs reference implementation (EIP-1153) and reference model (EIP-5656)",
    note="Upstream assigns EIP-1153 the bytes 0xb3/0xb4; traces are compared after renaming the two opcode bytes."),
+ "C11": dict(cat="model_checking", ref="DESIGN.md §4 C11",
+   text="Explicit-state breadth-first search on the implementation: all histories up to the depth bound over ~90 concrete recorder operations (register top-level / nested, journal change, enter call, exit call over 2 accounts, shared slots, offsets in and out of range, 2 type ids, colliding names), successor = replay on a fresh recorder + one operation, visited set keyed by the canonical dump of the recorder's private maps plus the model state; every transition is checked against a two-map reference model (acceptance/refusal, unchanged dump on refusal and on repeated registration, same record by name path and by (slot, offset, type), journal visible last under the current call in both views, child index sets, stability of every earlier registration).",
+   tech="explicit-state BFS over operation histories of the real object with state hashing on its private state, transition-wise comparison with a reference model in the implementation language",
+   note="Histories are not expanded beyond the first conflicting registration; its immediate symptoms are the two known-finding signatures, everything else (including any effect on earlier registrations) is reported."),
 }
 
 NOT_YET = {}
